@@ -51,6 +51,10 @@ def check_case(alg, ps, box, st, out, kinds):
         if "oob" in kinds:
             bad.append(("oob", "IndexError / out-of-bounds access"))
         return bad
+    if st == "hang":
+        if "term" in kinds:
+            bad.append(("term", "the filtering call did not return within the watchdog"))
+        return bad
     small = oracle.box_size(box) <= ORACLE_BOX_LIMIT
     if st != 0:
         if any(o[0] > o[1] for o in out):
@@ -128,6 +132,13 @@ def sweep(algs, tier, seed, report, kinds, budget=None):
         n_scope = len(cases)
         for _ in range(n_random):
             cases.append(gen.prop_random(alg, rng))
+        n_wide = 0
+        for _ in range(n_random // 3):
+            w = gen.prop_wide(alg, rng)
+            if w is not None:
+                cases.append(w)
+                n_wide += 1
+        report.count("wide_cases", alg, n_wide)
         cases = [(ps, b) for ps, b in cases if known_finding(alg, ps, b) is None]
         reqs = [f"prop {alg} {nv.enc_ints(ps)} {nv.enc_box(b)}" for ps, b in cases]
         answers = model.ask(reqs)
@@ -139,11 +150,13 @@ def sweep(algs, tier, seed, report, kinds, budget=None):
             report.count("status", f"{alg}:{st}")
             if st == "oob":
                 impl_line = "err oob"
+            elif st == "hang":
+                impl_line = "hang"
             elif st == 0:
                 impl_line = "0"
             else:
                 impl_line = f"{st} {nv.enc_box(out)}"
-            if st not in (0, "oob") and (st == 2 or [tuple(o) for o in out] != [tuple(x) for x in b]):
+            if st not in (0, "oob", "hang") and (st == 2 or [tuple(o) for o in out] != [tuple(x) for x in b]):
                 report.nontrivial((alg, tuple(ps), tuple(map(tuple, b))))
             elif st == 0:
                 report.nontrivial((alg, tuple(ps), tuple(map(tuple, b))))
